@@ -47,6 +47,13 @@ const IDS: &[&str] = &["{00000000-0000-0000-0000-000000000001}", "app1", "app2",
 const EXTRA_KEYS: &[&str] = &["key1", "key2", "channel", "appid", "version", "ping", "product_id", "k\"q", "ünï"];
 
 fn s(rng: &mut Rng) -> String {
+    // now and then a very long value of multi-byte characters (a server-assigned cohort name is not length-checked):
+    // bodies of several KiB, with character boundaries at every alignment
+    if rng.chance(1, 40) {
+        let n = 1500 + rng.below(1500) as usize;
+        let unit = *rng.pick(&["\u{e9}", "\u{65e5}", "\u{1f600}", "a\u{e9}"]);
+        return format!("{}{}", "x".repeat(rng.below(4) as usize), unit.repeat(n));
+    }
     if rng.chance(1, 5) {
         let n = rng.below(6) as usize;
         (0..n).map(|_| char::from_u32(*rng.pick(&[0x22u32, 0x5c, 0x2f, 0x08, 0x0a, 0x1b, 0x20, 0x41, 0x7e, 0x7f, 0x80, 0xe9, 0x2028, 0x1f600, 0xfffd])).unwrap()).collect()
